@@ -117,12 +117,24 @@ inductive AodD : List QD → Prop
 
 def trailD (tr : Bool) : List QD := if tr then [.kw .comma] else []
 
-/-- a query statement of the fragment -/
-inductive QueryD : List QD → Prop
-  | mk {a is f w g h o l} (tr : Bool) : AodD a → SepBy ItemD is → Opt FromD f → Opt WhereD w → Opt GroupD g →
+/-- a query statement of the fragment, over an item grammar `I` -/
+inductive QueryG (I : List QD → Prop) : List QD → Prop
+  | mk {a is f w g h o l} (tr : Bool) : AodD a → SepBy I is → Opt FromD f → Opt WhereD w → Opt GroupD g →
       Opt HavingD h → Opt OrderD o → Opt LimitD l →
       (tr = true → f ≠ [] ∨ (w = [] ∧ g = [] ∧ h = [] ∧ o = [] ∧ l = [])) →
-      QueryD (.kw .select :: (a ++ (is ++ (trailD tr ++ (f ++ (w ++ (g ++ (h ++ (o ++ l)))))))))
+      QueryG I (.kw .select :: (a ++ (is ++ (trailD tr ++ (f ++ (w ++ (g ++ (h ++ (o ++ l)))))))))
+
+/-- G_Q -/
+abbrev QueryD : List QD → Prop := QueryG ItemD
+
+/-- the items without the `expr.*` production (used by `query_complete_partial`) -/
+inductive ItemD0 : List QD → Prop
+  | star : ItemD0 [.kw .star]
+  | expr {ds} : ExprY ds → ItemD0 ds
+  | alias {ds a} : ExprY ds → AliasD a → ItemD0 (ds ++ a)
+
+/-- G_Q without the `expr.*` production -/
+abbrev QueryD0 : List QD → Prop := QueryG ItemD0
 
 /-! ## the yield of a tree (positions are not read) -/
 
